@@ -7,6 +7,7 @@ import (
 
 	"github.com/aml-org/amf-custom-validator/pkg"
 	e "github.com/aml-org/amf-custom-validator/pkg/events"
+	"github.com/open-policy-agent/opa/rego"
 	"verifharness/ev"
 	m "verifharness/model"
 )
@@ -16,6 +17,7 @@ type c08Case struct {
 	Call     string `json:"call"`
 	Position string `json:"position"`
 	Syntax   string `json:"syntax"`
+	Debug    bool   `json:"debug"` // the `debug` argument of the entry points
 }
 
 // the five built-ins the property names, with a call that type-checks
@@ -123,6 +125,7 @@ const c08Data = `[{"@id":"http://ex.org/n/n0","@type":["http://ex.org/v#Test"],"
 func decideC08(c c08Case) ev.Verdict {
 	profile := c08Profile(c.Position, c.Call, c.Syntax)
 	control := c08Profile(c.Position, "count([1])", c.Syntax)
+	compileProfile := func(text string) (*rego.PreparedEvalQuery, call) { return compileProfileDebug(text, c.Debug) }
 	if _, cc := compileProfile(control); cc.failed() {
 		// the embedding itself is broken: the rejection below would prove nothing
 		return ev.Verdict{Discard: true, Detail: fmt.Sprintf("control profile (%s, %s) does not compile: %s", c.Position, c.Syntax, trunc(cc.errString(), 300)), Obs: map[string]int{"vacuous_embeddings": 1}}
@@ -140,7 +143,7 @@ func decideC08(c c08Case) ev.Verdict {
 	}
 	// Validate must fail too, and nothing may be evaluated
 	ch := make(chan e.Event, 64)
-	res := guard(func() (string, error) { return pkg.Validate(profile, c08Data, false, &ch) })
+	res := guard(func() (string, error) { return pkg.Validate(profile, c08Data, c.Debug, &ch) })
 	if res.Panic != "" {
 		return ev.Violation("c08-panic", "Validate panicked: %s", res.Panic)
 	}
@@ -156,7 +159,7 @@ func decideC08(c c08Case) ev.Verdict {
 			return ev.Violation("c08-evaluated:"+c.Builtin, "pipeline went on to stage %d although the profile calls %s", x.EventType, c.Builtin)
 		}
 	}
-	return ev.Verdict{OK: true, NonTrivial: true, Labels: []string{"builtin:" + c.Builtin, "position:" + c.Position, "syntax:" + c.Syntax}}
+	return ev.Verdict{OK: true, NonTrivial: true, Labels: []string{"builtin:" + c.Builtin, "position:" + c.Position, "syntax:" + c.Syntax, fmt.Sprintf("debug:%v", c.Debug)}}
 }
 
 // TestC08Denied: the five named built-ins x every position x every syntax, exhaustively.
@@ -167,9 +170,11 @@ func TestC08Denied(t *testing.T) {
 	for _, b := range deniedOrder {
 		for _, p := range c08Positions {
 			for _, s := range c08Syntaxes {
-				n++
-				if n%shards == idx {
-					cases = append(cases, c08Case{Builtin: b, Call: deniedCalls[b], Position: p, Syntax: s})
+				for _, dbg := range []bool{false, true} {
+					n++
+					if n%shards == idx {
+						cases = append(cases, c08Case{Builtin: b, Call: deniedCalls[b], Position: p, Syntax: s, Debug: dbg})
+					}
 				}
 			}
 		}
